@@ -47,6 +47,7 @@ class Disk:
         self.hasher = hashlib.sha256()
         self.active = False  # seam routes to the simulator only while tool code runs
         self.opaque = set()  # relative paths of harness-written files that embed the scratch root's random name
+        self.masked = set()  # relative paths whose content comes from real (unseeded) library entropy
 
     # -- bookkeeping -------------------------------------------------------
     def begin_op(self, faults):
@@ -114,7 +115,7 @@ class Disk:
         return hit, ev
 
     def _finish(self, ev, data=None, result=None, length=None):
-        if data is not None and ev[1] not in self.opaque:
+        if data is not None and ev[1] not in self.opaque and ev[1] not in self.masked:
             ev[4] = hashlib.sha256(data).hexdigest()[:16]
         if result is not None:
             ev[5] = result
